@@ -278,6 +278,48 @@ def DS.toScalar (d : DS) : DS :=
           value := v.value.bind (fun x => (x[i]?).map (fun t => [t])) })),
     intNorm := false }
 
+/-! ### Histories of edits -/
+
+/-- The public edits of a design space. -/
+inductive Op where
+  | add (v : Var)
+  | remove (n : String)
+  | filter (keep : List String)
+  | filterDim (n : String) (dims : List Nat)
+  | rename (old new : String)
+  | extend (vs : List Var)
+  | setLb (n : String) (b : List (Option Rat))
+  | setUb (n : String) (b : List (Option Rat))
+  | setArr (x : List Rat)
+  | setDict (m : List (String × List Rat))
+  | setVar (n : String) (x : List Rat)
+  | initMissing
+  | intNorm (b : Bool)
+  deriving Repr
+
+/-- One edit; a rejected edit (`none`: the code raises) leaves the design space unchanged.
+    `set_current_variable` performs no check in the code: giving it an array of the wrong size is
+    outside the property's quantifier and is skipped here. -/
+def DS.apply (tol : Rat) (d : DS) : Op → DS
+  | .add v => (d.addVariable tol v).getD d
+  | .remove n => (d.removeVariable n).getD d
+  | .filter keep => (d.filter keep).getD d
+  | .filterDim n dims => (d.filterDimensions n dims).getD d
+  | .rename o n => (d.renameVariable o n).getD d
+  | .extend vs => (d.extend tol vs).getD d
+  | .setLb n b => (d.setLowerBound n b).getD d
+  | .setUb n b => (d.setUpperBound n b).getD d
+  | .setArr x => (d.setCurrentArray tol x).getD d
+  | .setDict m => (d.setCurrentDict tol m).getD d
+  | .setVar n x =>
+    match d.find? n with
+    | some v => if x.length == v.size then (d.setCurrentVariable n x).getD d else d
+    | none => d
+  | .initMissing => d.initMissing
+  | .intNorm b => d.setIntNorm b
+
+def DS.run (tol : Rat) (d : DS) (ops : List Op) : DS := ops.foldl (DS.apply tol) d
+
 /-! ### Protocol parsing shared by the drivers (I/O glue, not used in theorems) -/
 
 def parseOList? (s : String) : Option (List (Option Rat)) :=
